@@ -16,6 +16,7 @@
 from __future__ import annotations
 
 import ast
+import re
 from typing import Dict, List, Set
 
 from engine.src import FunctionInfo, own_nodes, own_nodes_incl_lambda, src_of, AnalysisError
@@ -168,11 +169,15 @@ def check_b(ck, repo):
     tr, bs, fit = ci.methods["transform"], ci.methods["_build_schema"], ci.methods["fit"]
     ex = expander(repo)
     # ---- _build_schema: one round of its loop
+    from .sem import fields_read_through_locals
+
+    fields_read_through_locals(bs)
     loops = [l for l in own_nodes(bs.node) if isinstance(l, ast.For)]
     rets = [p for p in paths(bs) if p.ret != RAISE]
     order = None
     if len(rets) == 1 and isinstance(rets[0].ret, ast.Tuple) and len(rets[0].ret.elts) == 3:
-        order = [_t(e) for e in rets[0].ret.elts]
+        # a name rebound inside the loop is returned under its loop-carried name
+        order = [re.sub(r"__L\d+$", "", _t(e)) for e in rets[0].ret.elts]
     if len(loops) != 1 or order is None or not (isinstance(loops[0].target, ast.Tuple) and len(loops[0].target.elts) == 2):
         ck.unknown("C19.b", bs, "for c, v in self._categories.items()", "schema loop / returned triple not found")
         names_v = pos_v = rank_v = None
@@ -205,7 +210,12 @@ def check_b(ck, repo):
                 if ok:
                     S = _t(after.right.args[0])
                     ext = [c for c in p.calls if _t(c.func) == f"{names_v}.extend" and len(c.args) == 1]
-                    ok = len(ext) == 1 and _t(ext[0].args[0]) in (ctext(f"(x[1] for x in {S})"), ctext(f"[x[1] for x in {S}]"))
+                    added = [_t(c.args[0]) for c in ext]
+                    grown = p.env.get(names_v)
+                    if not ext and isinstance(grown, ast.BinOp) and isinstance(grown.op, ast.Add) and _t(grown.left) == names_v:
+                        # `names += [..]` appends in place as extend does
+                        added = [_t(grown.right)]
+                    ok = len(added) == 1 and ctext(added[0]) in (ctext(f"(x[1] for x in {S})"), ctext(f"[x[1] for x in {S}]"))
                     ok = ok and _t(rk) == ctext(f"{{d[0]: i for i, d in enumerate({S})}}")
             ok_all = ok_all and ok
             if S is not None:
@@ -244,8 +254,14 @@ def check_b(ck, repo):
         for p in _run_block(fit, l.body, {}):
             if p.ret is None:
                 v = p.named_stores.get(f"self._categories[{cv}]")
-                if v is not None and _t(v) == ctext(f"{{value: rank for rank, value in enumerate(sorted(set({Xf}[{cv}].dropna())))}}"):
+                D_ = f"set({Xf}[{cv}].dropna())"
+                forms_ = [f"{{value: rank for rank, value in enumerate(sorted({D_}))}}"]
+                # the same pairs by zip: the sorted values against 0..n-1, n their number
+                forms_ += [f"dict(zip(sorted({D_}), range({n_})))" for n_ in (f"len({D_})", f"len(sorted({D_}))")]
+                if v is not None and ctext(_t(v)) in [ctext(f_) for f_ in forms_]:
                     okr = True
+                elif v is not None:
+                    ck.extra.setdefault("rank_forms_seen", []).append(_t(v))
     ck.verdict(okr, "C19.b", fit, "rank = enumerate(sorted(set(column without missing values)))", "ranks are positions among the sorted training categories", "ranks are not enumerate(sorted(distinct non-missing values))")
     fp = [p for p in split_ifexp(paths(fit)) if p.ret != RAISE]
     oks = bool(fp)
@@ -346,7 +362,15 @@ def check_b(ck, repo):
                 bad.append(("unseen raise not conditioned on skip_errors", p.ret, sorted(p.conds)))
             else:
                 bad.append(("undecided", p.ret, sorted(p.conds)))
-        ck.verdict(not bad and kinds == {"missing", "known", "unseen-raise", "unseen-skip"}, "C19.b", tr, f"cell cases {sorted(kinds)}", "missing -> no indicator; known -> 1.0 at offset[column] + rank[column][value]; unseen -> error unless skip_errors, then that cell only is skipped", f"cell handling changed: {bad[:2]} (cases {sorted(kinds)}): the indicator is not at offset + rank, missing values are looked up, or an unseen category leaves the row / is not refused")
+        # the indicators may be written after the loops (coordinates collected, one vector store): no store
+        # into the result inside the cell loop at all, and one outside it
+        no_store_in_cells = all(not any(k.startswith(R + "[") for k in p.named_stores) for p in cells)
+        late_stores = [s_ for s_ in own_nodes(tr.node) if isinstance(s_, ast.Assign) and isinstance(s_.targets[0], ast.Subscript) and src_of(s_.targets[0].value) == R and isinstance(s_.targets[0].slice, ast.Tuple) and all(isinstance(e_, ast.Name) for e_ in s_.targets[0].slice.elts)]
+        only_known_bad = bad and all(b_[0] == "known" for b_ in bad)
+        if only_known_bad and no_store_in_cells and late_stores and kinds == {"missing", "known", "unseen-raise", "unseen-skip"}:
+            ck.unknown("C19.b", tr, late_stores[0], f"the indicators are written by one store after the loops ({src_of(late_stores[0])[:60]}) from coordinates collected in lists: which cell each known value sets is not followed through the lists")
+        else:
+          ck.verdict(not bad and kinds == {"missing", "known", "unseen-raise", "unseen-skip"}, "C19.b", tr, f"cell cases {sorted(kinds)}", "missing -> no indicator; known -> 1.0 at offset[column] + rank[column][value]; unseen -> error unless skip_errors, then that cell only is skipped", f"cell handling changed: {bad[:2]} (cases {sorted(kinds)}): the indicator is not at offset + rank, missing values are looked up, or an unseen category leaves the row / is not refused")
         # output frame
         NEW = f"pandas.DataFrame({_t(env[R]) if R in env else R}, columns={SCH}[0], index={DFCAT}.index)"
         NUM = f"{Xt}[[c for c in {Xt}.columns if c not in self._fit_columns]]"
